@@ -253,6 +253,8 @@ MANIFEST_TEXT["C14"] = {
 _C03_STAGES = [
     {"variant": "dbg", "workload": "C03-sessions", "canary": ["unchecked-index", "unsafe precondition|non-unwinding panic"]},
     {"variant": "dbg", "workload": "C03-components"},
+    {"variant": "dbg", "workload": "C03-arrays"},
+    {"variant": "asan", "workload": "C03-arrays", "args_quick": ["--scale", "0.25"], "args_thorough": ["--scale", "0.25"]},
     {"variant": "asan", "workload": "C03-sessions", "args_quick": ["--scale", "0.25"], "args_thorough": ["--scale", "0.25"], "canary": ["heap-write-past-end", "AddressSanitizer"]},
     {"variant": "asan", "workload": "C03-components"},
     {"variant": "miri", "workload": "C03-lean", "canary": ["unchecked-index", "Undefined Behavior"], "timeout_quick": 1500, "timeout_thorough": 7200},
